@@ -40,7 +40,7 @@ type Case struct {
 	Canon  []int  `json:"canon"`
 	Strict bool   `json:"strict"`
 	Why    string `json:"why"`
-	Twin   []int  `json:"twin"`   // kind twins: same bytes up to Extent, every byte after it different
+	Twin   []int  `json:"twin"` // kind twins: same bytes up to Extent, every byte after it different
 	Extent int    `json:"extent"`
 }
 
@@ -141,7 +141,12 @@ func projValue(v ttlv.Value) any {
 	case time.Time:
 		m["ty"], m["v"] = 9, ints(binary.BigEndian.AppendUint64(nil, uint64(x.Unix())))
 	case time.Duration:
-		m["ty"], m["v"] = 10, ints(binary.BigEndian.AppendUint32(nil, uint32(x/time.Second)))
+		m["ty"] = 10
+		if secs := int64(x / time.Second); secs < 0 || secs > 0xFFFFFFFF || x%time.Second != 0 {
+			m["v"] = fmt.Sprintf("a duration outside the interval range: %d ns", int64(x)) // no 4-byte pattern stands for it
+		} else {
+			m["v"] = ints(binary.BigEndian.AppendUint32(nil, uint32(secs)))
+		}
 	default:
 		m["ty"], m["v"] = -1, fmt.Sprintf("%T", x)
 	}
@@ -315,7 +320,9 @@ func TestReplay(t *testing.T) {
 		n++
 		spec := toBytes(c.Bytes)
 		var problems []map[string]any
-		bad := func(kind string, detail any) { problems = append(problems, map[string]any{"kind": kind, "detail": detail}) }
+		bad := func(kind string, detail any) {
+			problems = append(problems, map[string]any{"kind": kind, "detail": detail})
+		}
 		switch c.Kind {
 		case "twins":
 			// C02: the result may depend on the declared extent of the top-level item only
